@@ -256,9 +256,48 @@ def check_translates(seed):
     return n, sorted(set(fails))[:10]
 
 
+def has_winding_cluster(mask, periodic):
+    """does a face-connected cluster of the binary image wind around a periodic axis? (breadth-first search that carries
+    the displacement of every cell from the cluster's first cell; meeting a cell again with another displacement = winding)"""
+    shape = mask.shape
+    per = [True] * len(shape) if periodic is True else list(periodic)
+    seen = {}
+    for start in map(tuple, np.argwhere(mask)):
+        if start in seen:
+            continue
+        seen[start] = tuple([0] * len(shape))
+        todo = [start]
+        while todo:
+            c = todo.pop()
+            for a in range(len(shape)):
+                for d in (-1, 1):
+                    n = list(c)
+                    off = list(seen[c])
+                    n[a] += d
+                    if n[a] < 0 or n[a] >= shape[a]:
+                        if not per[a]:
+                            continue
+                        off[a] += d
+                        n[a] %= shape[a]
+                    n, off = tuple(n), tuple(off)
+                    if not mask[n]:
+                        continue
+                    if n not in seen:
+                        seen[n] = off
+                        todo.append(n)
+                    elif seen[n] != off:
+                        return True
+    return False
+
+
 def classify(b):
     if "wave" in b and b["wave"].get("shape") and any("peak method returns nan" in f for f in b["fails"]):
         return "peak-method-default-smoothing"
+    # droplet counting on an image with a cluster that winds around the box: the reported position of such a cluster is
+    # not defined (C02 leaves it open), it moves with the translation and with it the outcome of the overlap removal
+    fl = b.get("fails", [])
+    if fl and b.get("winding_fields") and all("/droplet_detection:" in f and f.split("/")[0] in b["winding_fields"] for f in fl):
+        return "droplet-count-winding-cluster"
     return None
 
 
@@ -274,7 +313,13 @@ def run(out: core.Outcome) -> None:
     )
     fields = base_fields(out.seed + 3)
     base = [{m: measure(make_field(shape, dx, data, 0, per), m) for m in METHODS} for (_, shape, dx, per, data) in fields]
-    _G.update(fields=fields, base=base)
+    winding = []
+    for (fname, shape, dx, per, data) in fields:
+        thr = (float(data.min()) + float(data.max())) / 2
+        if has_winding_cluster(data > thr, per):
+            winding.append(fname)
+    out.extra["base_fields_with_a_winding_cluster"] = winding
+    _G.update(fields=fields, base=base, winding=winding)
     out.extra["base_values"] = [{k: v for k, v in b.items()} for b in base]
     for name, fn in ((("q_words", _chunk_words), ("q_waves", _chunk_waves)) if out.tier == "quick"
                      else (("t_words", _chunk_words), ("t_waves", _chunk_waves))):
@@ -292,6 +337,7 @@ def run(out: core.Outcome) -> None:
             out.evaluations += cnt
             nbad += len(bad)
             for b in bad:
+                b = {**b, "winding_fields": winding}
                 out.violation({"config": name, **b}, signature=classify(b))
         out.nontrivial_count += sum(1 for _, rec in items if rec["word"] or rec["wave"]["shape"])
         out.parts[name].update(cases=len(items), mismatches=nbad)
